@@ -148,3 +148,37 @@ Definition chk_hun (o : uop) (a : operand) (expected : res (hist Qc)) : nat :=
   | OpH h => cres_code cnt_eqb (h_unop o h) expected
   | OpS _ => 2%nat
   end.
+
+(* ---- C04 / C05 / C16 ---- *)
+From Dyce Require Export Model.Equality Model.Stats.
+Definition chk_hmatmul (n : Z) (h : hist Qc) (expected : res (hist Qc)) : bool :=
+  res_eqb hist_eqb (hmatmul VO Vzero Vadd n h) expected.
+Definition chk_pmatmul (n : Z) (dice : list (hist Qc)) (expected : res (list (hist Qc))) : bool :=
+  res_eqb (list_eqb hist_eqb) (pmatmul VO n (mkP VO dice)) expected.
+Definition chk_mkP_args (args : list (list (hist Qc))) (expected : list (hist Qc)) (tot : Z) : bool :=
+  list_eqb hist_eqb (mkP_args VO args) expected && (ptotal (mkP_args VO args) =? tot).
+Definition chk_sum_h (dice : list (hist Qc)) (expected : hist Qc) : bool :=
+  hist_eqb (sum_h VO Vzero Vadd (mkP VO dice)) expected.
+
+Definition chk_eq (a b : hist Qc) (eq ne hasheq : bool) : bool :=
+  Bool.eqb (heq VO a b) eq && Bool.eqb (hne VO a b) ne &&
+  (* equal histograms must hash equal; unequal ones may collide, so only that direction is checked *)
+  (if heq VO a b then hasheq else true).
+Definition chk_lowest (a : hist Qc) (expected : hist Qc) : bool := hist_eqb (lowest VO a) expected.
+Definition chk_mk (l : list (Qc * Z)) (expected : res (hist Qc)) : bool := res_eqb hist_eqb (mkH VO l) expected.
+Definition chk_hrange (n : Z) (expected : hist Qc) : bool := hist_eqb (hrange VO Vz n) expected.
+Definition chk_peq (dice : list (hist Qc)) (h : hist Qc) (eq : bool) : bool :=
+  Bool.eqb (heq VO (sum_h VO Vzero Vadd (mkP VO dice)) h) eq.
+
+Definition dist_eqb (a b : list (Qc * (Z * Z))) : bool :=
+  list_eqb (pair_eqb Veqb (pair_eqb Z.eqb Z.eqb)) a b.
+Definition chk_distribution (h : hist Qc) (expected : list (Qc * (Z * Z))) : bool := dist_eqb (distribution h) expected.
+(* exact comparison, or closeness for float results: |got - want| <= (|scale| + 1) / 2^tolbits *)
+Definition Vabs (x : Qc) : Qc := if Vleb (qc 0 1) x then x else (- x)%Qc.
+Definition close (tolbits : Z) (got want scale : Qc) : bool :=
+  Vleb (Vabs (got - want)%Qc * Vz (2 ^ tolbits))%Qc (Vabs scale + qc 1 1)%Qc.
+Definition chk_mean (h : hist Qc) (got : Qc) (exact : bool) : bool :=
+  if exact then Veqb (mean h) got else close 50 got (mean h) (mean h).
+Definition chk_variance (h : hist Qc) (got : Qc) (exact : bool) : bool :=
+  if exact then Veqb (variance h) got
+  else close 36 got (variance h) (variance h + mean h * mean h)%Qc.
